@@ -12,7 +12,7 @@ TRUSTED_BASE = [
     "Lean 4.33.0 kernel (theorems re-elaborated by `lake build` on this run; thorough tier also re-checks the .olean files with leanchecker)",
     "axioms reported by #print axioms for the property's theorems (audited on this run to be a subset of propext, Classical.choice, Quot.sound); no native_decide, no bv_decide, no sorry/admit, no axioms of our own",
     "the hand-written reference tables in lean/RdsSpec/Reference.lean (RDS G0 charset, IEC 62106-4 ECC table, ISO 3166-1 codes, PTY names) and the property statements in lean/RdsSpec/Monitors.lean / Statements.lean",
-    "the tie between model and code: harness/extract.c + tools/genlean.py (tables regenerated from the compiled current source, complete finite domains), harness/harness.c + lean/Main.lean (differential correspondence and monitors; sampled + swept, not proved)",
+    "the tie between model and code, three parts: T0 tools/c2lean.py (translator from the clang AST of /repo/src/*.c to pure Lean; trusted, with the four packed-string layout primitives) + the refinement theorems of lean/RdsProps/Refinement.lean (kernel-checked: every translated function IS the model function, crun_refines for every history); T1 harness/extract.c + tools/genlean.py (tables regenerated from the compiled current source, complete finite domains); T2 harness/harness.c + lean/Main.lean (differential correspondence and monitors on the compiled library; sampled + swept, not proved)",
     "modelled, not verified: gcc/clang, glibc (strtol, strlen, memset, malloc), struct layout, wchar_t literals, absence of UB and of data races (exercised by ASan/UBSan/MSan/valgrind/TSan/segment check, never claimed as proved)",
 ]
 
